@@ -32,6 +32,8 @@ pub struct Wire {
     /// Label used in reports.
     pub label: u32,
     pub rx: VecDeque<Rx>,
+    /// Bytes of the front `Rx::Bytes` chunk already handed out.
+    pub rx_off: usize,
     /// What to do when `rx` is empty: `true` = `Ok(0)`, `false` = `Pending` (idle live peer).
     pub eof_when_empty: bool,
     /// Number of `read` polls (including those that returned `Pending`).
@@ -128,7 +130,7 @@ impl ReadHalf for VRead {
             w.read_polls += 1;
             w.min_read_buf = w.min_read_buf.min(buf.len());
             loop {
-                match w.rx.front_mut() {
+                match w.rx.front() {
                     None => {
                         w.read_polls_when_empty += 1;
                         return if w.eof_when_empty {
@@ -143,21 +145,26 @@ impl ReadHalf for VRead {
                     }
                     Some(Rx::Eof) => return Poll::Ready(Ok(0)),
                     Some(Rx::Err) => return Poll::Ready(Err(io_err())),
-                    Some(Rx::Bytes(chunk)) => {
-                        if chunk.is_empty() {
+                    Some(Rx::Bytes(_)) => {
+                        let off = w.rx_off;
+                        let Some(Rx::Bytes(chunk)) = w.rx.front() else { unreachable!() };
+                        let left = chunk.len() - off;
+                        if left == 0 {
                             w.rx.pop_front();
+                            w.rx_off = 0;
                             continue;
                         }
                         if buf.is_empty() {
                             // A zero-length read on a stream socket returns 0.
                             return Poll::Ready(Ok(0));
                         }
-                        let n = chunk.len().min(buf.len());
-                        buf[..n].copy_from_slice(&chunk[..n]);
-                        if n == chunk.len() {
+                        let n = left.min(buf.len());
+                        buf[..n].copy_from_slice(&chunk[off..off + n]);
+                        if n == left {
                             w.rx.pop_front();
+                            w.rx_off = 0;
                         } else {
-                            chunk.drain(..n);
+                            w.rx_off = off + n;
                         }
                         w.bytes_delivered += n;
                         return Poll::Ready(Ok(n));
